@@ -347,7 +347,7 @@ class C03(Prop):
         if r < .62:
             n = rng.choice([2, 2, 3])
             return {'kind': 'save', 'n': n, 'data': [rng.randint(0, 9) for _ in range(rng.randint(n, 6))], 'map': rng.choice([None, 'id', 'inc']),
-                    'order': rng.sample(range(n), n), 'retries': rng.choice([1, 1, 2, 3]),
+                    'order': rng.sample(range(n), n), 'retries': rng.choice([1, 1, 2, 3]), 'fmt': rng.choice(['text', 'text', 'pickle']),
                     'preempt': sorted([rng.randint(1, 160), rng.randrange(n)] for _ in range(rng.choice([1, 1, 2])))}
         return {'kind': 'backend', 'pipe': self.gen_pipe(rng), 'backend': rng.choice(BACKENDS), 'seed': rng.randint(0, 99)}
 
@@ -534,7 +534,10 @@ class C03(Prop):
             if case.get('map'):
                 rdd = rdd.map(LAMBDAS[case['map']])
             try:
-                rdd.saveAsTextFile(target)
+                if case.get('fmt') == 'pickle':
+                    rdd.saveAsPickleFile(target)
+                else:
+                    rdd.saveAsTextFile(target)
                 outcome = 'ok'
             except Exception as e:  # pylint: disable=broad-except
                 outcome = 'raises:' + type(e).__name__
@@ -542,7 +545,7 @@ class C03(Prop):
             for dp, _, fns in os.walk(target):
                 for fn in fns:
                     with open(os.path.join(dp, fn), 'rb') as f:
-                        files[os.path.relpath(os.path.join(dp, fn), target)] = f.read().decode('utf8', 'replace')
+                        files[os.path.relpath(os.path.join(dp, fn), target)] = f.read().decode('latin1')
             return [outcome, sorted(files.items())]
         try:
             want = run(self.ps.Context(max_retries=case['retries']), 'ref')
